@@ -12,7 +12,8 @@ def run(ctx):
     core_specs.readonly(ctx)
     binp = ctx.build_harness(cc.HARNESS)
     q = ctx.quick()
-    trace, res, summ = cc.run_profile(ctx, binp, "ro", 30 if q else 300, 40 if q else 60)
-    cc.report(ctx, PID, res, trace, "ro")
+    runs = cc.run_profile(ctx, binp, "ro", 30 if q else 300, 40 if q else 60)
+    cc.report_all(ctx, PID, runs, "ro")
+    trace, res = runs[0]
     cc.mutate_and_reject(ctx, trace, "ro", cc.mut_romut, "a modifying backend call under read-only")
     ctx.cov["rule"] = 'histories over a pre-populated tree with the export read-only from construction or switched on/off at run time (UpdatePolicyOptions and UpdateExportOptions), all 22 procedures, arguments well-formed / truncated at a 4-byte boundary / garbage / one bit flipped, credentials root, uid 1000, AUTH_NONE; every backend call is classified modifying or not'
